@@ -6,7 +6,7 @@ ENV = dict(os.environ, GOFLAGS="-mod=mod", GOPROXY="off", GOSUMDB="off", GOTOOLC
 def sh(cmd, cwd=None, timeout=3000):
     p = subprocess.run(cmd, cwd=cwd, shell=True, env=ENV, stdout=subprocess.PIPE, stderr=subprocess.STDOUT, text=True, timeout=timeout)
     return p.returncode, p.stdout
-mdir, name, checks = sys.argv[1], sys.argv[2], sys.argv[3:]
+mdir, name, checks = os.path.abspath(sys.argv[1]), sys.argv[2], sys.argv[3:]
 res = {"name": name, "checks": {}}
 wt = tempfile.mkdtemp(prefix="mx-", dir="/tmp"); os.rmdir(wt)
 sh("git -C /repo worktree add -q --detach %s HEAD" % wt)
@@ -21,6 +21,12 @@ try:
             rc, out = sh("cd /verif && VERIF_REPO=%s VERIF_OUTDIR=%s VERIF_BUILD_TAG=-mx%s ./check %s" % (wt, out_dir, name, c))
             v = [l for l in out.splitlines() if l.startswith("VIOLATION")]
             res["checks"][c] = rc
+            if v and "replay=" in v[0]:
+                try:
+                    rp = json.load(open(v[0].split("replay=")[1].split()[0]))
+                    res.setdefault("why", {})[c] = [str(x)[:220] for x in (rp.get("failures") or rp.get("mismatches") or rp.get("broken") or [rp.get("error", "")])[:2]]
+                except Exception:
+                    pass
 finally:
     sh("git -C /repo worktree remove --force %s" % wt)
     shutil.rmtree(out_dir, ignore_errors=True)
